@@ -58,6 +58,36 @@ class World(object):
         self.active = False
         self.events = []
         self.extra_steps = 0
+        self.timed = []          # [(virtual time, label)] peer actions that happen at a given time
+        self.clock.on_advance = self.fire_due
+
+    # ---- timed peer actions (C05): fire when the virtual clock reaches their time ----------
+    def fire_due(self):
+        from .stategraph import parse_action
+        while self.timed and self.timed[0][0] <= self.clock.now + 1e-9:
+            t, label = self.timed.pop(0)
+            name, args = parse_action(label)
+            self.peer(name, args)
+            self.log(e='peer', a=label, t=t)
+
+    def wait_ready(self, ready, timeout):
+        """virtual-time wait: `ready()` says whether the descriptor is readable now; peer actions
+        scheduled before the deadline are performed at their time; returns the final readiness"""
+        self.fire_due()
+        if ready() or timeout == 0:
+            return ready()
+        deadline = None if timeout is None else self.clock.now + timeout
+        while True:
+            nxt = self.timed[0][0] if self.timed else None
+            if nxt is None or (deadline is not None and nxt > deadline + 1e-9):
+                if deadline is None:
+                    raise WouldBlock('blocking wait with nothing readable and no peer action left')
+                self.clock.set(deadline)
+                return ready()
+            self.clock.set(max(self.clock.now, nxt))
+            self.fire_due()
+            if ready():
+                return True
 
     def log(self, **ev):
         self.events.append(ev)
@@ -95,12 +125,12 @@ class World(object):
             r = real(0)
             self.log(e='step', k='select0', ready=bool(r), **self.observe())
             return r
+        try:
+            self.wait_ready(lambda: bool(real(0)), timeout)
+        except WouldBlock:
+            self.log(e='step', k='selectT', ready=False, **self.observe())
+            raise
         r = real(0)
-        if not r:
-            if timeout is None:
-                self.log(e='step', k='selectT', ready=False, **self.observe())
-                raise WouldBlock('select(None) with nothing readable and no peer action scheduled before it')
-            self.clock.advance(timeout)
         self.log(e='step', k='selectT', ready=bool(r), **self.observe())
         return r
 
@@ -386,16 +416,16 @@ class SockWorld(World):
                 world.before_reader_step()
                 t = a.gettimeout()
                 import select as _sel
-                ready = _sel.select([a], [], [], 0)[0]
-                if not ready:
-                    if t is None:
-                        world.log(e='step', k='recv', n=0, err='block', **world.observe())
-                        raise WouldBlock('recv() on a blocking socket with nothing readable')
-                    if t > 0:
-                        world.clock.advance(t)
-                        world.log(e='step', k='recv', n=0, err='timeout', **world.observe())
-                        raise socket.timeout('timed out')
-                    # t == 0: let the real non-blocking socket answer
+                is_ready = lambda: bool(_sel.select([a], [], [], 0)[0])
+                try:
+                    ready = world.wait_ready(is_ready, t)
+                except WouldBlock:
+                    world.log(e='step', k='recv', n=0, err='block', **world.observe())
+                    raise
+                if not ready and t is not None and t > 0:
+                    world.log(e='step', k='recv', n=0, err='timeout', **world.observe())
+                    raise socket.timeout('timed out')
+                # t == 0 and nothing readable: let the real non-blocking socket answer
                 try:
                     data = a.recv(n)
                 except BaseException as e:
@@ -441,3 +471,80 @@ class SockWorld(World):
                 x.close()
             except OSError:
                 pass
+
+
+class PopenWorld(World):
+    """real pexpect.popen_spawn.PopenSpawn running `cat`: what the harness writes to the child's
+    stdin comes back on its stdout -> pipe -> reader thread -> queue.  A peer write returns only
+    once the reader thread has queued it, so arrival times are deterministic."""
+
+    def __init__(self, workdir, encoding=None, unit=lambda i: bytes([65 + i % 26])):
+        from pexpect import popen_spawn
+        World.__init__(self)
+        self.unit = unit
+        self.written = b''
+        self.nunits = 0
+        self.nread = 0
+        self.peer_open = True
+        self.peer_exited = False
+        self.child = popen_spawn.PopenSpawn(['/bin/cat'], timeout=5, encoding=encoding)
+        self.child.delayafterread = 0.05
+        self.queued = 0
+        self.eof_queued = False
+        q = self.child._read_queue
+        orig_put = q.put
+        world = self
+
+        def put(item, *a, **k):
+            r = orig_put(item, *a, **k)
+            if item is None:
+                world.eof_queued = True
+            else:
+                world.queued += len(item)
+            return r
+        q.put = put
+        self.reader_fd = -1
+        self.clock.install(pexpect.expect, pexpect.utils, popen_spawn)
+
+    def observe(self):
+        return {'flagEof': bool(self.child.flag_eof)}
+
+    def _spin(self, cond):
+        import time as _t
+        t0 = _t.time()
+        while not cond():
+            if _t.time() - t0 > 10:
+                raise RuntimeError('reader thread did not pick up the peer action')
+            _t.sleep(0.0005)
+
+    def peer(self, name, args):
+        if name == 'PeerWrite':
+            data = b''.join(self.unit(self.nunits + i) for i in range(args[0]))
+            self.nunits += args[0]
+            os.write(self.child.proc.stdin.fileno(), data)
+            self.written += data
+            self._spin(lambda: self.queued >= len(self.written))
+        elif name == 'PeerClose':
+            self.child.proc.stdin.close()
+            self.peer_open = False
+            self._spin(lambda: self.eof_queued)
+            self.peer_exited = True
+        else:
+            raise ValueError(name)
+
+    def close(self):
+        self.clock.uninstall()
+        self.active = False
+        try:
+            self.child.proc.stdin.close()
+        except Exception:
+            pass
+        try:
+            self.child.proc.kill()
+        except Exception:
+            pass
+        try:
+            self.child.proc.wait()
+            self.child.proc.stdout.close()
+        except Exception:
+            pass
